@@ -560,6 +560,13 @@ class Evaluator:
                 if isinstance(w, (tuple, list)):
                     return len(w)
             raise Unsupported("unop %s on %r" % (rv[1], v))
+        if k == "repeat":
+            n = int(rv[2]) if str(rv[2]).isdigit() else None
+            if n is None or n > 1 << 16:
+                raise Unsupported("array repeat with a non-constant length")
+            return BufView([self.operand(fr, rv[1])] * n)       # `[x; N]`: a buffer, so that sub-slices of it can be written
+        if k == "rawptr" and rv[1] == "FakeForPtrMetadata":
+            return self.read_place(fr, rv[2]) if len(rv) > 2 else UNKNOWN
         if k == "discr":
             v = self.read_place(fr, rv[1])
             if isinstance(v, Enum) and v.adt == "core::cmp::Ordering":
@@ -900,6 +907,8 @@ class Evaluator:
         if sh0 in ("core::iter::traits::iterator::Iterator::rev", "core::iter::traits::iterator::Iterator::copied", "core::iter::traits::iterator::Iterator::cloned") \
                 and len(args) == 1 and isinstance(args[0], PyIter):
             rest = args[0].items[args[0].pos:]
+            if not sh0.endswith("rev"):
+                rest = [x.buf[x.i] if isinstance(x, ElemRef) else x for x in rest]
             return PyIter(list(reversed(rest)) if sh0.endswith("rev") else rest)
         if sh0 in ("core::iter::traits::iterator::Iterator::reduce", "core::iter::traits::iterator::Iterator::fold", "core::iter::traits::iterator::Iterator::sum",
                    "core::iter::traits::iterator::Iterator::max", "core::iter::traits::iterator::Iterator::min", "core::iter::traits::iterator::Iterator::count") \
